@@ -10,6 +10,7 @@ import (
 	"flag"
 	"fmt"
 	"os"
+	"os/exec"
 	"path/filepath"
 	"runtime"
 	"runtime/debug"
@@ -153,6 +154,12 @@ func cmdCheck(args []string) int {
 	}
 	core.SortObls(all)
 
+	// thorough: replay the seeded-variant corpus against scratch copies (recorded, never part of the verdict)
+	var corpus []map[string]any
+	if *tier == "thorough" && os.Getenv("VERIF_NO_CORPUS") == "" {
+		corpus = runCorpus(vd, *repo, id)
+	}
+
 	// verdicts
 	violations := 0
 	knownHit := 0
@@ -223,17 +230,18 @@ func cmdCheck(args []string) int {
 			"distinct_nontrivial": len(distinct),
 			"rule": "an obligation is one (rule, construct, build configuration) instance extracted from the type-checked SSA of /repo's working tree; " +
 				"distinct = distinct (rule, construct) pairs; non-trivial = the discharge needed a dominance, path, provenance, lock-set or table argument rather than a constant fact",
-			"samples":             samples,
-			"rules":               ruleList,
-			"instances_per_rule":  ruleCounts,
-			"known_findings_hit":  knownHit,
-			"analysed":            analysed,
-			"roles":               roles,
-			"notes":               notes,
-			"exhaustive":          false,
-			"checker_cmd":         "bin/dverif check " + id + " --tier " + *tier,
-			"technique":           rs.Technique,
+			"samples":              samples,
+			"rules":                ruleList,
+			"instances_per_rule":   ruleCounts,
+			"known_findings_hit":   knownHit,
+			"analysed":             analysed,
+			"roles":                roles,
+			"notes":                notes,
+			"exhaustive":           false,
+			"checker_cmd":          "bin/dverif check " + id + " --tier " + *tier,
+			"technique":            rs.Technique,
 			"undecided_is_failure": true,
+			"corpus":               corpus,
 		},
 		Assumptions: append([]string{
 			"go/types, go/ssa and the VTA call graph of golang.org/x/tools v0.29.0 are a faithful model of the source",
@@ -276,6 +284,102 @@ func runOne(rs *rules.RuleSet, repo string, cfg prog.Config, tier string, depth 
 		"module_functions": len(p.ModuleFuncs()),
 	}
 	return res, info, nil
+}
+
+// runCorpus applies every corpus / seeded variant that concerns property id to a scratch copy of
+// the analysed tree (under the system temp dir, removed immediately) and runs this binary's quick
+// check on it in a separate process. Result: what fired, compared with the expectation in
+// corpus/INDEX.json. A variant that no longer applies is recorded as skipped.
+func runCorpus(vd, repo, id string) []map[string]any {
+	data, err := os.ReadFile(filepath.Join(vd, "corpus", "INDEX.json"))
+	if err != nil {
+		return []map[string]any{{"error": "corpus/INDEX.json: " + err.Error()}}
+	}
+	var idx []struct {
+		File   string   `json:"file"`
+		Kind   string   `json:"kind"`
+		Fires  []string `json:"fires"`
+		Silent []string `json:"silent"`
+	}
+	if err := json.Unmarshal(data, &idx); err != nil {
+		return []map[string]any{{"error": "corpus/INDEX.json: " + err.Error()}}
+	}
+	exe, _ := os.Executable()
+	type job struct {
+		file, kind string
+		wantFire   bool
+	}
+	var jobs []job
+	for _, e := range idx {
+		for _, f := range e.Fires {
+			if f == id {
+				jobs = append(jobs, job{e.File, e.Kind, true})
+			}
+		}
+		for _, f := range e.Silent {
+			if f == id {
+				jobs = append(jobs, job{e.File, e.Kind, false})
+			}
+		}
+	}
+	results := make([]map[string]any, len(jobs))
+	sem := make(chan struct{}, 6)
+	done := make(chan int)
+	for i, j := range jobs {
+		go func(i int, j job) {
+			sem <- struct{}{}
+			defer func() { <-sem; done <- i }()
+			res := map[string]any{"variant": j.file, "kind": j.kind, "expected": map[bool]string{true: "fires", false: "silent"}[j.wantFire]}
+			results[i] = res
+			tmp, err := os.MkdirTemp("", "dverif-corpus-")
+			if err != nil {
+				res["outcome"] = "error: " + err.Error()
+				return
+			}
+			defer os.RemoveAll(tmp)
+			scratch := filepath.Join(tmp, "repo")
+			if out, err := exec.Command("rsync", "-a", "--exclude", ".git", repo+"/", scratch+"/").CombinedOutput(); err != nil {
+				res["outcome"] = "error: copy: " + string(out)
+				return
+			}
+			patch := exec.Command("patch", "-p1", "-s", "--no-backup-if-mismatch", "-i", filepath.Join(vd, j.file))
+			patch.Dir = scratch
+			if err := patch.Run(); err != nil {
+				res["outcome"] = "skipped: no longer applies"
+				return
+			}
+			cmd := exec.Command(exe, "check", id, "--tier", "quick", "--repo", scratch, "--out", filepath.Join(tmp, "ev"), "-q")
+			cmd.Env = append(os.Environ(), "VERIF_DIR="+vd, "VERIF_TIER=quick")
+			out, _ := cmd.CombinedOutput()
+			var rules []string
+			seen := map[string]bool{}
+			for _, l := range strings.Split(string(out), "\n") {
+				if !strings.HasPrefix(l, "VIOLATION") {
+					continue
+				}
+				for _, f := range strings.Fields(l) {
+					if strings.HasPrefix(f, "rule=") && !seen[f] {
+						seen[f] = true
+						rules = append(rules, strings.TrimPrefix(f, "rule="))
+					}
+				}
+			}
+			fired := len(rules) > 0
+			res["fired_rules"] = rules
+			switch {
+			case fired == j.wantFire:
+				res["outcome"] = "as expected"
+			case fired:
+				res["outcome"] = "UNEXPECTED ALARM"
+			default:
+				res["outcome"] = "MISSED"
+			}
+		}(i, j)
+	}
+	for range jobs {
+		<-done
+	}
+	return results
 }
 
 func sampleObls(all []core.Obligation, n int) []any {
